@@ -127,6 +127,15 @@ func Send[T any](c chan<- T, v T) {
 	}
 }
 
+// SendTo(c)(v) is c <- v with the element type inferred from the channel alone, so that v only
+// needs to be assignable to it (what the rewriter emits).
+func SendTo[T any](c chan<- T) func(T) { return func(v T) { Send(c, v) } }
+
+// SendCaseTo(c)(v): see SendTo.
+func SendCaseTo[T any](c chan<- T) func(T) SelCase {
+	return func(v T) SelCase { return SendCase(c, v) }
+}
+
 // Recv performs <-c.
 func Recv[T any](c <-chan T) T {
 	v, _ := Recv2(c)
@@ -225,10 +234,25 @@ func SendCase[T any](c chan<- T, v T) SelCase {
 	return SelCase{send: true, ch: reflect.ValueOf(c), val: reflect.ValueOf(&v).Elem()}
 }
 
-// RecvVal converts the value returned by Select back to the element type of c.
-func RecvVal[T any](c <-chan T, v any) T {
-	x, _ := v.(T)
+// Sel receives the value and ok flag of the receive clause a Select took.
+type Sel struct {
+	Val any
+	OK  bool
+}
+
+// RecvVal converts the value received by Select back to the element type of c.
+func RecvVal[T any](c <-chan T, sel *Sel) T {
+	x, _ := sel.Val.(T)
 	return x
+}
+
+// Select executes a select statement; it returns the index of the clause taken (-1 = default).
+func Select(sel *Sel, hasDefault bool, cases ...SelCase) int {
+	i, v, ok := selectImpl(hasDefault, cases...)
+	if sel != nil {
+		sel.Val, sel.OK = v, ok
+	}
+	return i
 }
 
 func rvAny(v reflect.Value) any {
@@ -238,9 +262,7 @@ func rvAny(v reflect.Value) any {
 	return v.Interface()
 }
 
-// Select executes a select statement over the cases; hasDefault says whether the statement
-// has a default clause (index -1 is returned when it is taken).
-func Select(hasDefault bool, cases ...SelCase) (int, any, bool) {
+func selectImpl(hasDefault bool, cases ...SelCase) (int, any, bool) {
 	s := Active()
 	if s == nil || s.Stopping() {
 		rc := make([]reflect.SelectCase, 0, len(cases)+1)
@@ -393,6 +415,31 @@ func MapKeys[K comparable, V any](m map[K]V) []K {
 		out[i] = keys[j]
 	}
 	return out
+}
+
+// MapIterator iterates a map in tape order with Go's "deleted entries are not produced" rule.
+type MapIterator[K comparable, V any] struct {
+	m    map[K]V
+	keys []K
+	i    int
+	K    K
+	V    V
+}
+
+func MapIter[K comparable, V any, M ~map[K]V](m M) *MapIterator[K, V] {
+	return &MapIterator[K, V]{m: m, keys: MapKeys(map[K]V(m))}
+}
+
+func (it *MapIterator[K, V]) Next() bool {
+	for it.i < len(it.keys) {
+		k := it.keys[it.i]
+		it.i++
+		if v, ok := it.m[k]; ok {
+			it.K, it.V = k, v
+			return true
+		}
+	}
+	return false
 }
 
 func sortKeys[K comparable](keys []K) {
